@@ -635,7 +635,9 @@ pub fn check(prop: &str, tier: &str) -> Option<Report> {
         }
         let mut pd = vec![];
         for m in [Op::Merge, Op::Zip, Op::CombineLatest, Op::Amb, Op::Concat] {
-          for x in [None, Some(Op::RefCount), Some(Op::Map(MapF::Inc)), Some(Op::Take(2)), Some(Op::Defer)] {
+          let mut xs: Vec<Option<Op>> = vec![None, Some(Op::RefCount), Some(Op::Defer)];
+          xs.extend(reduced_ops().into_iter().map(Some));
+          for x in xs {
             let second = match &x {
               None => Node::Src(1),
               Some(o) => Node::op(o.clone(), Node::Src(1)),
